@@ -123,7 +123,10 @@ def cases(tier):
     out.append(Case(PROP, "qkeras/utils.py::_add_supported_quantized_objects", "class_" + c, table_scenario(m, c),
                     replay_kind="c13_table", assumptions=ASSUME))
   for m, c in LAYER_CLASSES:
-    for vname, variant in (("bias", {}), ("nobias", {"use_bias": False}), ("act", {"activation": "ACT"})):
+    for vname, variant in (("bias", {}), ("nobias", {"use_bias": False}), ("act", {"activation": "ACT"}),
+                           ("noquant", {"__all_quantizers__": None})):
+      if vname == "noquant" and c in ("QActivation", "QAdaptiveActivation"):
+        continue
       if vname == "act" and c in ("QActivation", "QAdaptiveActivation", "QAveragePooling2D", "QGlobalAveragePooling2D",
                                   "QScaleShift", "QBatchNormalization"):
         continue
@@ -233,7 +236,10 @@ def layer_scenario(modname, clsname, variant):
       elif p in CONCRETE:
         kw[p] = CONCRETE[p]
       elif p.endswith("_quantizer") or p == "quantizer":
-        kw[p] = Obj(ExtClass("quantizer"), {"name": "q_" + p}, label="q_" + p)
+        if "__all_quantizers__" in variant:
+          kw[p] = None                  # a quantizer explicitly switched off must stay off (some defaults are not None)
+        else:
+          kw[p] = Obj(ExtClass("quantizer"), {"name": "q_" + p}, label="q_" + p)
       else:
         kw[p] = Term("v:" + p)
     if init.node.args.kwarg is not None:
